@@ -49,6 +49,7 @@ type linterLookupImpl struct {
 func (lookup *linterLookupImpl) Names() []string {
 	lookup.RLock()
 	defer lookup.RUnlock()
+	verifGate("lookup.locked", "")
 	return lookup.lintNames
 }
 
@@ -57,6 +58,7 @@ func (lookup *linterLookupImpl) Names() []string {
 func (lookup *linterLookupImpl) Sources() SourceList {
 	lookup.RLock()
 	defer lookup.RUnlock()
+	verifGate("lookup.locked", "")
 	var list SourceList
 	for lintSource := range lookup.sources {
 		list = append(list, lintSource)
@@ -97,6 +99,7 @@ type certificateLinterLookupImpl struct {
 func (lookup *certificateLinterLookupImpl) ByName(name string) *CertificateLint {
 	lookup.RLock()
 	defer lookup.RUnlock()
+	verifGate("lookup.locked", "")
 	return lookup.lintsByName[name]
 }
 
@@ -105,6 +108,7 @@ func (lookup *certificateLinterLookupImpl) ByName(name string) *CertificateLint 
 func (lookup *certificateLinterLookupImpl) BySource(s LintSource) []*CertificateLint {
 	lookup.RLock()
 	defer lookup.RUnlock()
+	verifGate("lookup.locked", "")
 	return lookup.lintsBySource[s]
 }
 
@@ -112,6 +116,7 @@ func (lookup *certificateLinterLookupImpl) BySource(s LintSource) []*Certificate
 func (lookup *certificateLinterLookupImpl) Lints() []*CertificateLint {
 	lookup.RLock()
 	defer lookup.RUnlock()
+	verifGate("lookup.locked", "")
 	return lookup.lints
 }
 
@@ -121,6 +126,7 @@ func (lookup *certificateLinterLookupImpl) register(lint *CertificateLint, name 
 	}
 	lookup.RLock()
 	defer lookup.RUnlock()
+	verifGate("lookup.locked", "")
 
 	if existing := lookup.lintsByName[name]; existing != nil {
 		return &errDuplicateName{name}
@@ -170,6 +176,7 @@ type revocationListLinterLookupImpl struct {
 func (lookup *revocationListLinterLookupImpl) ByName(name string) *RevocationListLint {
 	lookup.RLock()
 	defer lookup.RUnlock()
+	verifGate("lookup.locked", "")
 	return lookup.lintsByName[name]
 }
 
@@ -178,6 +185,7 @@ func (lookup *revocationListLinterLookupImpl) ByName(name string) *RevocationLis
 func (lookup *revocationListLinterLookupImpl) BySource(s LintSource) []*RevocationListLint {
 	lookup.RLock()
 	defer lookup.RUnlock()
+	verifGate("lookup.locked", "")
 	return lookup.lintsBySource[s]
 }
 
@@ -185,6 +193,7 @@ func (lookup *revocationListLinterLookupImpl) BySource(s LintSource) []*Revocati
 func (lookup *revocationListLinterLookupImpl) Lints() []*RevocationListLint {
 	lookup.RLock()
 	defer lookup.RUnlock()
+	verifGate("lookup.locked", "")
 	return lookup.lints
 }
 
@@ -194,6 +203,7 @@ func (lookup *revocationListLinterLookupImpl) register(lint *RevocationListLint,
 	}
 	lookup.RLock()
 	defer lookup.RUnlock()
+	verifGate("lookup.locked", "")
 
 	if existing := lookup.lintsByName[name]; existing != nil {
 		return &errDuplicateName{name}
@@ -243,6 +253,7 @@ type ocspResponseLinterLookupImpl struct {
 func (lookup *ocspResponseLinterLookupImpl) ByName(name string) *OcspResponseLint {
 	lookup.RLock()
 	defer lookup.RUnlock()
+	verifGate("lookup.locked", "")
 	return lookup.lintsByName[name]
 }
 
@@ -251,6 +262,7 @@ func (lookup *ocspResponseLinterLookupImpl) ByName(name string) *OcspResponseLin
 func (lookup *ocspResponseLinterLookupImpl) BySource(s LintSource) []*OcspResponseLint {
 	lookup.RLock()
 	defer lookup.RUnlock()
+	verifGate("lookup.locked", "")
 	return lookup.lintsBySource[s]
 }
 
@@ -258,6 +270,7 @@ func (lookup *ocspResponseLinterLookupImpl) BySource(s LintSource) []*OcspRespon
 func (lookup *ocspResponseLinterLookupImpl) Lints() []*OcspResponseLint {
 	lookup.RLock()
 	defer lookup.RUnlock()
+	verifGate("lookup.locked", "")
 	return lookup.lints
 }
 
@@ -267,6 +280,7 @@ func (lookup *ocspResponseLinterLookupImpl) register(lint *OcspResponseLint, nam
 	}
 	lookup.RLock()
 	defer lookup.RUnlock()
+	verifGate("lookup.locked", "")
 
 	if existing := lookup.lintsByName[name]; existing != nil {
 		return &errDuplicateName{name}
